@@ -135,6 +135,80 @@ theorem genesis_once (st : St) (g0 : Genesis) (g : Hdr) (pvs : List HV) (hg : st
     (syncGenesis st g pvs).1 = st := by
   simp [syncGenesis, hg]
 
+/-! ## msc (clique-style router, `Poly.Model.LCPosa.Msc`)
+
+A different algorithm (signer set = checkpoint list + majority votes; the code walks over `LastVoteParentOrEpoch` links).
+Statements about `Msc.run C St.empty ops` for every configuration `C` (epoch, period) and every history. -/
+
+/-- msc: a stored header has a stored parent with the preceding number and a parent chain to the trust root. -/
+theorem msc_stored_needs_parent (C : Msc.Cfg) (ops : List Msc.Op) (g : Genesis) (id : Id) (s : Stored)
+    (hg : (Msc.run C St.empty ops).genesis = some g) (hs : (Msc.run C St.empty ops).hdrs id = some s) (hne : id ≠ g.hdr.id) :
+    ∃ p l, (Msc.run C St.empty ops).hdrs s.hdr.parent = some p ∧ p.hdr.number + 1 = s.hdr.number ∧
+      Chain (Msc.run C St.empty ops) g s.hdr.parent (p :: l) := by
+  obtain ⟨_, ⟨l, hl⟩, hall⟩ := MscP.stored_good (MscP.run_inv ops (MscP.empty_inv C)) hg hs hne
+  obtain ⟨p, rest, hpl, hnum, _⟩ := (hall l hl).1.link
+  subst hpl
+  exact ⟨p, rest, Chain.head_stored hl, hnum, hl⟩
+
+/-- msc: fixed-format fields of a stored header: a recoverable seal; extra data = 32 + 65 bytes outside checkpoints and
+32 + n·20 + 65 (n ≥ 1) with zero beneficiary and zero nonce on checkpoints; a vote nonce; zero mix digest; empty-uncle
+hash; difficulty 1 or 2; and its total difficulty is the sum along its chain. -/
+theorem msc_extra_wellformed (C : Msc.Cfg) (ops : List Msc.Op) (g : Genesis) (id : Id) (s : Stored) (l : List Stored)
+    (hg : (Msc.run C St.empty ops).genesis = some g) (hs : (Msc.run C St.empty ops).hdrs id = some s) (hne : id ≠ g.hdr.id)
+    (hl : Chain (Msc.run C St.empty ops) g s.hdr.parent l) :
+    (∃ a, s.hdr.signer = some a) ∧ 32 + 65 ≤ s.hdr.extra.length ∧
+    (s.hdr.number % C.epoch ≠ 0 → s.hdr.extra.length = 32 + 65) ∧
+    (s.hdr.number % C.epoch = 0 → 32 + 65 < s.hdr.extra.length ∧ (s.hdr.extra.length - (32 + 65)) % 20 = 0 ∧
+      s.hdr.coinbase = Msc.zeroAddr ∧ s.hdr.nonce = .drop) ∧
+    s.hdr.nonce ≠ .other ∧ s.hdr.mixZero = true ∧ s.hdr.uncleOk = true ∧ (s.hdr.difficulty = 2 ∨ s.hdr.difficulty = 1) ∧
+    s.td = sumDiff (s :: l) := by
+  obtain ⟨hgood, htd⟩ := (MscP.stored_good (MscP.run_inv ops (MscP.empty_inv C)) hg hs hne).2.2 l hl
+  have := hgood.wf
+  exact ⟨hgood.sealOk, this.len, this.plain, this.checkpoint, this.nonce, this.mix, this.uncle, this.diff, htd⟩
+
+/-- msc: what acceptance of a header establishes in every reachable state: its seal recovers to a signer that is
+authorized in the snapshot the code computes at its parent (`signer ∈ snap.signers`), who sealed none of the
+⌊|signers|/2⌋ nearest ancestors on the header's own parent chain (a trust root at block 0 excepted), the difficulty is 2
+exactly when the signer stands at index `number mod |signers|` of the ascending signer list, and a checkpoint carries
+exactly that list. (Proved part of the full statement `msc_signer_in_effect_set`.) -/
+theorem msc_signer_in_effect_set_partial (C : Msc.Cfg) (ops : List Msc.Op) (h : Hdr) (st' : St)
+    (hok : Msc.syncHeader C (Msc.run C St.empty ops) h = (st', .ok)) :
+    ∃ g p l signer snap ls, (Msc.run C St.empty ops).genesis = some g ∧
+      (Msc.run C St.empty ops).hdrs h.parent = some p ∧ Chain (Msc.run C St.empty ops) g h.parent (p :: l) ∧
+      p.hdr.number + 1 = h.number ∧ h.signer = some signer ∧
+      Msc.snapshot (Msc.run C St.empty ops) g (h.number - 1) h.parent signer = .ok snap ls ∧ signer ∈ snap.signers ∧
+      (∀ a ∈ (p :: l).take (snap.signers.length / 2), a.hdr.signer = some signer → a.hdr.number = 0) ∧
+      (h.number % snap.signers.length = Msc.indexOf signer snap.signers → h.difficulty = 2) ∧
+      (h.number % snap.signers.length ≠ Msc.indexOf signer snap.signers → h.difficulty = 1) ∧
+      (h.number % C.epoch = 0 → h.valBytes = snap.signers.flatten) := by
+  obtain ⟨g, p, l, signer, snap, ls, h1, h2, h3, h4, h5, h6, h7, h8, h9, h10, h11, _⟩ :=
+    MscP.accept_facts (MscP.run_inv ops (MscP.empty_inv C)) hok
+  exact ⟨g, p, l, signer, snap, ls, h1, h2, h3, h4, h5, h6, h7, h8, h9, h10, h11⟩
+
+/-- FULL statement for msc, NOT proved: the signer of an accepted header is authorized in the clique signer set obtained
+by replaying the votes over the header's plain parent chain (`Msc.replay`), i.e. the code's walk over
+`LastVoteParentOrEpoch` links computes the same set. What is proved is `msc_signer_in_effect_set_partial` (membership in
+the set the code's walk computes); the equivalence of the two is only exercised (the harness reference replays the
+plain chain). -/
+def msc_signer_in_effect_set : Prop :=
+  ∀ (C : Msc.Cfg) (ops : List Msc.Op) (h : Hdr) (st' : St),
+    Msc.syncHeader C (Msc.run C St.empty ops) h = (st', .ok) →
+    ∀ g p l, (Msc.run C St.empty ops).genesis = some g → Chain (Msc.run C St.empty ops) g h.parent (p :: l) →
+      ∃ snap signer, Msc.replay C (p :: l) = some snap ∧ h.signer = some signer ∧ signer ∈ snap.signers
+
+/-- msc fork choice: as `canonical_follows_td`. -/
+theorem msc_canonical_follows_td (C : Msc.Cfg) (ops : List Msc.Op) (g : Genesis)
+    (hg : (Msc.run C St.empty ops).genesis = some g) :
+    let st := Msc.run C St.empty ops
+    (∃ head, st.canon st.height = some head.hdr.id ∧ st.hdrs head.hdr.id = some head ∧ head.hdr.number = st.height ∧
+      ∀ id s, st.hdrs id = some s → s.td ≤ head.td) ∧
+    (∀ i, st.height < i → st.canon i = none) ∧ (∀ i, i < g.hdr.number → st.canon i = none) ∧
+    st.canon g.hdr.number = some g.hdr.id ∧ g.hdr.number ≤ st.height ∧
+    (∀ i, g.hdr.number < i → i ≤ st.height → ∃ s, st.canon i = some s.hdr.id ∧ st.hdrs s.hdr.id = some s ∧
+      s.hdr.number = i ∧ st.canon (i - 1) = some s.hdr.parent) := by
+  obtain ⟨_, _, _, _, hCI⟩ := (MscP.run_inv ops (MscP.empty_inv C)).gen g hg
+  exact ⟨hCI.head, hCI.above, hCI.below, hCI.root.1, hCI.root.2, hCI.link⟩
+
 /-! ## Non-vacuity: a concrete history satisfying the hypotheses above (`Poly.Proofs.LCPosa.Example`)
 
 Trust root 1 (number 5, set [a, b, c]); headers 2 (number 6), 3 (number 7, announces [a, b, d]), the competing 4
@@ -157,5 +231,15 @@ example :
     ((run (Router.heco 3) St.empty Example.ops).hdrs 5).map (·.td) = some 6 ∧
     ((run (Router.pixie 3) St.empty Example.ops).hdrs 3).isSome = true ∧
     ((run (Router.hsc 3) St.empty Example.ops).hdrs 6).isNone = true := by decide
+
+set_option maxRecDepth 100000 in
+/-- msc: trust root 1 (number 8, epoch 8, signers [a, b], sealed by a); 2 sealed by b in turn; 3 by a; 4 by a again is
+refused (recent); 5 by the unauthorized c is refused; the full statement's hypotheses are satisfiable. -/
+example :
+    ((Msc.run ⟨8, 2⟩ St.empty Example.mscOps).hdrs 3).isSome = true ∧
+    ((Msc.run ⟨8, 2⟩ St.empty Example.mscOps).hdrs 4).isNone = true ∧
+    ((Msc.run ⟨8, 2⟩ St.empty Example.mscOps).hdrs 5).isNone = true ∧
+    (Msc.run ⟨8, 2⟩ St.empty Example.mscOps).height = 10 ∧
+    (Msc.syncHeader ⟨8, 2⟩ (Msc.run ⟨8, 2⟩ St.empty Example.mscOps) Example.m6).2 = .ok := by decide
 
 end Poly.Props.C29
